@@ -12,7 +12,8 @@ _T1 = ["vbi_roundtrip", "vbi_range", "vbi_canonical_length", "vbi_decode_consume
        "u16_u32_reencode", "binary_roundtrip", "string_roundtrip", "utf8_validity_spec", "topic_name_validity_spec",
        "topic_filter_validity_spec", "v5_topic_validity_spec", "utf8_validity_orig_violated",
        "topic_filter_validity_orig_violated", "topic_name_validity_orig_violated"]
-THEOREMS = ["GmqttVerif.Codec." + t for t in _T1]
+_T2 = ["props_roundtrip", "props_roundtrip_will", "props_reencode_stable", "props_unpack_total_and_bounded"]
+THEOREMS = ["GmqttVerif.Codec." + t for t in _T1 + _T2]
 COMPS = ["codec"]
 
 # ------------------------------------------------------------------ independent codec: primitives
